@@ -40,8 +40,9 @@ ASSUMPTIONS = [
     "integer time: stamp += delta (symbolic int in [0,D]) before every pass; the timeout is a selector (a symbolic "
     "timeout meets the float literal in `ix.timeout > 0.0`: mixed Int/Real queries)",
     "requests are concrete byte strings delivered in pieces: 'trickle' never completes; 'persist' is a complete "
-    "HTTP/1.1 GET (persistent); 'stream' is a complete HTTP/1.0 GET (not persistent) answered by a streamed body "
-    "without content-length",
+    "HTTP/1.1 GET and 'persist10' an HTTP/1.0 GET with Connection: keep-alive (both persistent); 'stream' is a "
+    "complete HTTP/1.0 GET and 'close11' an HTTP/1.1 GET with Connection: close (both not persistent), answered by a "
+    "streamed body without content-length",
     "the WSGI app double yields b'' (no output this pass), a chunk, or finishes, as the schedule selects",
     "the socket double accepts every send completely",
     "activity = a recv that returned data or a send that accepted >=1 byte during the pass",
@@ -56,7 +57,11 @@ REQS = {
     "trickle": [b"GE", b"T ", b"/a", b" H", b"TT", b"P/", b"1.", b"1\r", b"\nH", b"os", b"t:", b" h"],
     "persist": [b"GET /a HTTP/1.1\r\nHo", b"st: h\r\n\r\n"],
     "stream": [b"GET /a HTTP/1.0\r\nHo", b"st: h\r\n\r\n"],
+    # HTTP/1.0 made persistent by keep-alive, and HTTP/1.1 made non-persistent by close
+    "persist10": [b"GET /a HTTP/1.0\r\nConnection: keep-alive\r\nHo", b"st: h\r\n\r\n"],
+    "close11": [b"GET /a HTTP/1.1\r\nConnection: close\r\nHo", b"st: h\r\n\r\n"],
 }
+NONPERSISTENT = ("stream", "close11")
 
 
 class Listen(D.SockBase):
@@ -140,7 +145,7 @@ def h(sym, front, tls, req, K, Dmax, timeouts):
             last = now
         if sock.closed:
             sym.check(CA not in servant.ixes, key + "closed-socket-still-listed")
-            exchange_over = (req == "stream" and ctl["finished"])
+            exchange_over = (req in NONPERSISTENT and ctl["finished"])
             if not exchange_over:
                 sym.check(T > 0, key + "closed-with-timeout-disabled", "pass %d" % k)
                 sym.check(not persisted, key + "persistent-connection-dropped-by-idle-timer",
@@ -175,12 +180,14 @@ def obligations(tier):
     out = []
     for front in ("Valet", "Porter"):
         for tls in (False, True):
-            for req in ("trickle", "persist", "stream"):
-                if front == "Porter" and req == "stream":
+            for req in ("trickle", "persist", "persist10", "stream", "close11"):
+                if front == "Porter" and req in NONPERSISTENT:
                     continue        # Porter answers with a complete message (no streamed bodies)
                 covers = {"trickle": ["idle-close", "activity", "survived"],
                           "persist": ["persisted", "activity", "survived"],
-                          "stream": ["exchange-over-close", "activity", "idle-close"]}[req]
+                          "persist10": ["persisted", "activity", "survived"],
+                          "stream": ["exchange-over-close", "activity", "idle-close"],
+                          "close11": ["exchange-over-close", "activity", "idle-close"]}[req]
                 out.append(Ob("%s%s/%s" % (front, "Tls" if tls else "", req), h,
                               dict(front=front, tls=tls, req=req, K=K, Dmax=Dmax, timeouts=timeouts),
                               budget=600 if quick else 3600, covers=covers,
